@@ -104,4 +104,7 @@ def obligations(ctx: Ctx):
         obs.append(Ob(f"{P}.B1", "B", "perturbed instances through repair(), octave_validate(fix), octave_write(lenient, schema)", FUNCS, C11_b.ob_b1, timeout=3000))
     except ImportError:
         pass
+    from props import lexical as _LX
+
+    obs += [o for o in _LX.emit_layout_obs(P) if o.oid.endswith('.P.emit.value')]  # the repaired number is written as the number it is
     return obs
